@@ -23,7 +23,7 @@ THOROUGH = {
                                     "restart": 3, "rename": 3, "create": 2, "uidprobe": 8, "store": 10, "poll": 8,
                                     "search": 0, "status": 1},
                 world=dict(pack_limit=3, pack_ratio=0.75)),
-    "tlc_timeout": 3000,
+    "tlc_timeout": 1500,
    }
 
 def fn(ck, a):
